@@ -323,6 +323,11 @@ func Mix(r *core.Rng, p MixParams) *prog.Program {
 	g := &G{R: r}
 	pg := &prog.Program{Cfg: Config(r, p.Modes, p.Segs)}
 	g.Keys = subset(r, KVKeys, 2, 6)
+	if r.Bool(0.3) {
+		// the same name as a KV key and as a list / set / sorted-set key of the
+		// same bucket: the structures are separate name spaces
+		g.Keys = append(g.Keys, subset(r, []string{"l", "m", "s", "t", "p", "q"}, 1, 4)...)
+	}
 	g.Bkts = dsBuckets["kv"]
 	if len(p.Buckets) > 0 {
 		g.Bkts = p.Buckets
